@@ -172,6 +172,8 @@ def _forward_ref(repo, ob, failure):
         (['<use id="t" href="#b" xy="30 40"/>', '<rect id="s" cxy="#t@c" wh="4"/>', '<rect id="b" wh="10"/>'], [2, 0, 1]),
         (['<rect id="d" xy="#a|h" wh="4"/>', '<rect id="s" cxy="#d@c" wh="2"/>', '<rect id="a" xy="10" wh="4"/>'], [2, 0, 1]),
         (['<rect id="d" xy="#a|h" wh="4"/>', '<rect id="s" xy="1 2" width="#d" height="#d 50%"/>', '<rect id="a" xy="10" wh="4"/>'], [2, 0, 1]),
+        (['<polyline id="p" points="#a@c #b@c"/>', '<rect id="a" xy="10" wh="4"/>', '<rect id="b" xy="30 20" wh="4"/>'], [1, 2, 0]),
+        (['<polygon id="p" points="#a@tl, #b@br, 0 50"/>', '<rect id="a" xy="10" wh="4"/>', '<rect id="b" xy="30 20" wh="4"/>'], [1, 0, 2]),
         (['<rect id="s" surround="#d"/>', '<rect id="d" cx="#a~x2" cy="10" width="4" height="4"/>', '<rect id="a" x="20" y="0" width="5" height="5"/>'], [0, 2, 1]),
         (['<rect id="s" xy="#d|h 2" wh="3"/>', '<circle id="d" x="#a~x2" y="10" r="4"/>', '<rect id="a" x="20" y="0" width="5" height="5"/>'], [0, 2, 1]),
         (['<rect id="p" inside="#a"/>', '<circle id="a" cxy="#b@c" r="9"/>', '<rect id="b" xy="30 20" wh="4"/>'], [2, 1, 0]),
@@ -179,8 +181,9 @@ def _forward_ref(repo, ob, failure):
     ]
 
     def geom(out):
-        els = _re.findall(r"<(rect|circle|line|ellipse)\b([^>]*)>", out)
-        return sorted((n, " ".join(sorted(_re.findall(r'\b(?:x|y|cx|cy|r|rx|ry|x1|y1|x2|y2|width|height)="[^"]*"', a)))) for n, a in els)
+        els = _re.findall(r"<(rect|circle|line|ellipse|polyline|polygon)\b([^>]*)>", out)
+        root = _re.search(r'<svg[^>]*viewBox="([^"]*)"', out)
+        return sorted((n, " ".join(sorted(_re.findall(r'\b(?:x|y|cx|cy|r|rx|ry|x1|y1|x2|y2|width|height|points)="[^"]*"', a)))) for n, a in els) + [("viewBox", root.group(1) if root else "")]
     for els, perm in cases:
         a = "<svg>" + "".join(els) + "</svg>"
         b = "<svg>" + "".join(els[i] for i in perm) + "</svg>"
@@ -641,4 +644,21 @@ def _shorthand_equiv(repo, ob, failure):
         if a != b:
             return {"input": '<svg><%s id="p" %s/></svg>' % (tag, short), "input_longhand": '<svg><%s id="p" %s/></svg>' % (tag, long_),
                     "observed": "shorthand gives %r, longhand gives %r" % (a, b), "expected": "identical output geometry"}
+    return None
+
+
+@generator("C08.polyline.")
+def _polyline_extent(repo, ob, failure):
+    """the root extent of a polyline / polygon is the same for every separator spelling of its points"""
+    import re as _re
+    spellings = ["1 2 30 4 5 60", "1,2 30,4 5,60", "1 2, 30 4, 5 60", "1, 2, 30, 4, 5, 60", "1 2,30 4,5 60", " 1  2   30 4 5 60 "]
+    want = "-4 -3 39 68"
+    for tag in ("polyline", "polygon"):
+        for sp in spellings:
+            doc = '<svg><%s points="%s"/></svg>' % (tag, sp)
+            r = run_svgdx(repo, doc)
+            m = _re.search(r'<svg[^>]*viewBox="([^"]*)"', r["out"]) if r["rc"] == 0 else None
+            got = m.group(1) if m else ("rc %s, no viewBox" % r["rc"])
+            if got != want:
+                return {"input": doc, "observed": "viewBox %s" % got, "expected": "viewBox %s (points 1,2 30,4 5,60 grown by the border 5)" % want}
     return None
